@@ -514,3 +514,30 @@ Fixpoint quiesce_fuel (fuel : nat) (vr : variant) (iv : Z) (s : st) : st :=
   end.
 
 Definition quiesce (vr : variant) (iv : Z) (s : st) : st := quiesce_fuel (measure s) vr iv s.
+
+(* ---------------------------------------------------------------------------------------- *)
+(* end to end: the values of the Batch calls the queue has handed over, in hand-over order *)
+Definition batch_val (s : st) (id : nat) : val :=
+  match nth_error (hist s) id with Some h => snd (fst h) | None => 0%Z end.
+Definition fired_vals (s : st) : list val := map (fun f => batch_val s (fst f)) (fired s).
+
+(* a subscriber that stays subscribed (accepted, context alive, batcher open) and whose consumer
+   is receiving *)
+Definition staying_readerb (s : st) (b : sub) : bool :=
+  accepted b && negb (ctx_done b) && negb (closed s) && consumer_ready b.
+
+(* what [Proofs_e2e.at_rest_received] promises, as a boolean: evaluated by the correspondence on
+   the model state after every script step at which the lock is free *)
+Definition e2e_okb (s : st) : bool :=
+  forallb (fun b => if staying_readerb s b
+                    then eqb_listZ (received b) (skipn (start b) (fired_vals s)) else true)
+          (subs s).
+
+(* what [Proofs_e2e.close_state_final] promises about the state itself, as a boolean: once a Close
+   call has returned, a channel has been closed iff its subscription was accepted *)
+Definition any_returnedb (s : st) : bool :=
+  match cl s with CReturned => true | _ => false end
+  || existsb (fun e => match snd e with K2Returned => true | _ => false end) (cl2 s).
+Definition close_final_okb (s : st) : bool :=
+  if any_returnedb s then forallb (fun b => Bool.eqb (accepted b) (user_closed b)) (subs s)
+  else true.
